@@ -272,6 +272,19 @@ def _value_families():
         lambda: geom.polygon([(0, 0), (2, 0), (2, 3), (0, 3), (0, 0)], "EPSG:4326"),
         lambda: geom.line([(0, 0), (2, 3)], "EPSG:4326"),
         lambda: geom.multipoint([(0, 0), (2, 3)], "EPSG:4326"),
+        # every geometry kind the wrapper can hold: rings (a shapely type of their own), holes, multi-part, collections, empty, 3-D
+        lambda: geom.polygon([(0, 0), (9, 0), (9, 9), (0, 9), (0, 0)], "EPSG:4326", [(2, 2), (4, 2), (4, 4), (2, 2)]),
+        lambda: geom.polygon([(0, 0), (9, 0), (9, 9), (0, 9), (0, 0)], "EPSG:4326", [(2, 2), (4, 2), (4, 4), (2, 2)]).exterior,
+        lambda: geom.polygon([(0, 0), (9, 0), (9, 9), (0, 9), (0, 0)], "EPSG:4326", [(2, 2), (4, 2), (4, 4), (2, 2)]).interiors[0],
+        lambda: geom.polygon([(0, 0), (9, 0), (9, 9), (0, 9), (0, 0)], None).exterior,
+        lambda: geom.line([(0, 0), (9, 0), (9, 9), (0, 9), (0, 0)], "EPSG:4326"),
+        lambda: geom.multiline([[(0, 0), (2, 3)], [(5, 5), (6, 7), (8, 8)]], "EPSG:4326"),
+        lambda: geom.multipolygon([[[(0, 0), (2, 0), (2, 3), (0, 0)]], [[(10, 10), (12, 10), (12, 13), (10, 10)]]], "EPSG:4326"),
+        lambda: geom.multigeom([geom.point(1.0, 2.0, "EPSG:4326"), geom.point(4.0, 5.0, "EPSG:4326")]),
+        lambda: geom.Geometry(__import__("shapely.geometry").geometry.GeometryCollection([geom.point(1.0, 2.0, None).geom, geom.line([(0, 0), (2, 3)], None).geom]), "EPSG:4326"),
+        lambda: geom.box(0, 0, 2, 3, "EPSG:4326") & geom.box(10, 10, 12, 13, "EPSG:4326"),
+        lambda: geom.Geometry(__import__("shapely.geometry").geometry.Point(1.0, 2.0, 30.0), "EPSG:4326"),
+        lambda: geom.Geometry({"type": "Point", "coordinates": [0.1 + 0.2, 1e-320]}, "EPSG:4326"),
     ]
     fam["BoundingBox"] = [lambda: geom.BoundingBox(0, 1, 2, 3, "EPSG:4326"), lambda: geom.BoundingBox(0, 1, 2, 3, None), lambda: geom.BoundingBox(0, 1, 2, 3.5, "EPSG:4326"), lambda: geom.BoundingBox(0, 1, 2, 3, "EPSG:3857")]
     fam["GeoBox"] = [lambda: GeoBox((7, 9), A, "EPSG:32633"), lambda: GeoBox((7, 8), A, "EPSG:32633"), lambda: GeoBox((7, 9), A * Affine.translation(1, 0), "EPSG:32633"), lambda: GeoBox((7, 9), A, "EPSG:32634"), lambda: GeoBox((7, 9), A * Affine.translation(1e-7, 0), "EPSG:32633")]
@@ -303,7 +316,7 @@ def _value_samples():
         for name in _value_families():
             yield dict(type_name=name)
 
-    return "10 value types x families of 3-9 near-identical objects (differing in one field), each built twice, copied and pickled: all pairs and triples", gen()
+    return "10 value types x families of 3-21 near-identical objects (Geometry: every shapely kind incl. rings, holes, multi-part, collection, empty, 3-D, awkward floats) (differing in one field), each built twice, copied and pickled: all pairs and triples", gen()
 
 
 def _value_oracle(args, run=None):
